@@ -63,8 +63,11 @@ def main():
     dest = os.path.join(VERIF, 'seeded', args.name)
     os.makedirs(dest, exist_ok=True)
 
+    rerun = os.path.realpath(args.outdir) == os.path.realpath(dest)
+
     for f in ('patch.diff', 'demo.py'):
-        shutil.copy(os.path.join(args.outdir, f), os.path.join(dest, f))
+        if not rerun:
+            shutil.copy(os.path.join(args.outdir, f), os.path.join(dest, f))
 
     try:
         meta = json.load(open(os.path.join(args.outdir, 'meta.json')))
@@ -145,12 +148,15 @@ def main():
     verified = dict(old.get('verified', {}))
     verified.update(result['verified'])
     result['verified'] = verified
-    old.update({'property': meta.get('property'),
-                'breaks': meta.get('summary'),
-                'needs': meta.get('needs'),
-                'files': meta.get('files'),
-                'author_tests_run': meta.get('tests_run'),
-                'verified': result['verified']})
+    if rerun:
+        old['verified'] = result['verified']
+    else:
+        old.update({'property': meta.get('property'),
+                    'breaks': meta.get('summary'),
+                    'needs': meta.get('needs'),
+                    'files': meta.get('files'),
+                    'author_tests_run': meta.get('tests_run'),
+                    'verified': result['verified']})
     old.setdefault('checks', {}).update(result['checks'])
     json.dump(old, open(path, 'w'), indent=1)
     print(json.dumps({'verified': result['verified'],
